@@ -3,6 +3,7 @@ package main
 // Obligation discharge: SMT-LIB script generation, solver race, result parsing.
 
 import (
+	"sort"
 	"bytes"
 	"context"
 	"fmt"
@@ -41,7 +42,7 @@ func backgroundAxioms(used map[string]bool) []*Term {
 	}
 	if used["slen"] {
 		s := App("slen", SInt, r)
-		out = append(out, Forall([]*Term{r}, [][]*Term{{s}}, Le(Num(0), s)))
+		out = append(out, Forall([]*Term{r}, [][]*Term{{s}}, And(Le(Num(0), s), Le(s, NumBig(maxInt64)))))
 	}
 	if used["emptyset"] {
 		e := App("emptyset", SArr(SInt, SBool))
@@ -103,6 +104,34 @@ func (o *Obligation) script(eng *Engine, withModel bool) string {
 			}
 		}
 	}
+	// heap well-typedness for byte storage: every version of the stream-data ghost map and of the
+	// []byte backing-array map, and every element array created for them, holds values in 0..255
+	{
+		var names []string
+		for n := range used {
+			names = append(names, n)
+		}
+		sort.Strings(names)
+		for _, n := range names {
+			if !isByteStoreSym(n) {
+				continue
+			}
+			d := decls[n]
+			if d == nil || len(d.args) != 0 {
+				continue
+			}
+			j, r := BVar("j", SInt), BVar("r", SInt)
+			v := Var(n, d.ret)
+			switch d.ret {
+			case SArr(SInt, SInt):
+				e := Select(v, j)
+				asserts = append(asserts, Forall([]*Term{j}, [][]*Term{{e}}, And(Le(Num(0), e), Le(e, Num(255)))))
+			case SArr(SInt, SArr(SInt, SInt)):
+				e := Select(Select(v, r), j)
+				asserts = append(asserts, Forall([]*Term{r, j}, [][]*Term{{e}}, And(Le(Num(0), e), Le(e, Num(255)))))
+			}
+		}
+	}
 	bg := backgroundAxioms(used)
 	collectSyms(bg, used)
 	sf := strFacts(used)
@@ -113,15 +142,11 @@ func (o *Obligation) script(eng *Engine, withModel bool) string {
 	}
 	sb.WriteString("; obligation " + o.Name + " in " + o.Fn + "\n; " + strings.ReplaceAll(o.Text, "\n", " ") + "\n")
 	sb.WriteString(declText(used))
-	for _, a := range bg {
-		sb.WriteString("(assert " + a.String() + ")\n")
-	}
-	for _, a := range sf {
-		sb.WriteString("(assert " + a.String() + ")\n")
-	}
-	for _, a := range asserts {
-		sb.WriteString("(assert " + a.String() + ")\n")
-	}
+	var all []*Term
+	all = append(all, bg...)
+	all = append(all, sf...)
+	all = append(all, asserts...)
+	sb.WriteString(printAsserts(all))
 	sb.WriteString("(check-sat)\n")
 	if withModel {
 		sb.WriteString("(get-model)\n")
@@ -287,4 +312,22 @@ func (e *Engine) axiomIndex(name string) int {
 		}
 	}
 	return 1 << 30
+}
+
+// isByteStoreSym: symbol is a version of g:data / a:byte or an element array made for them.
+func isByteStoreSym(n string) bool {
+	i := strings.Index(n, ".")
+	if i < 0 {
+		return false
+	}
+	rest := n[i+1:]
+	for _, p := range []string{"g:data", "g_data", "a:byte", "a_byte", "a:uint8", "a_uint8"} {
+		if strings.HasPrefix(rest, p) {
+			tail := rest[len(p):]
+			if tail == "" || tail[0] == '!' {
+				return true
+			}
+		}
+	}
+	return false
 }
